@@ -89,6 +89,8 @@ def check(model: Model, run: Run) -> None:
     from .c19 import parse_results_fresh
     parse_results_fresh(model, run, SCHEMA, "G9-parse-results-are-fresh", "what a definition parses to")
     keyword_combinations(model, run)
+    from .c16 import parsed_numbers_kept
+    parsed_numbers_kept(model, run, "G11-parsed-zero-is-a-value")
     hooks_store_fields_as_given(model, run, [f"{SCHEMA}.{c}" for c in CLASSES], "G10-results-hold-what-was-parsed",
                                 "the definition from_string returns no longer holds, for every input, what the grammar denotes")
 
